@@ -620,7 +620,8 @@ class _SetOperation(Selectable, Term):  # type:ignore[misc]
     def get_sql(self, ctx: SqlContext) -> str:
         set_operation_template = " {type} {query_string}"
 
-        set_ctx = ctx.copy(subquery=self.base_query.wrap_set_operation_queries)
+        # an operand's own alias defines no name inside the set operation
+        set_ctx = ctx.copy(subquery=self.base_query.wrap_set_operation_queries, with_alias=False)
         base_querystring = self.base_query.get_sql(set_ctx)
 
         querystring = base_querystring
